@@ -35,6 +35,7 @@ type ServerOpts struct {
 	SnapshotCacheSize int // 0 => default 10
 	ClusterSecret     string
 	NoDefaultProject  bool
+	ChannelTTL        string // "" => 5s
 }
 
 // Server is one in-process Yorkie server.
@@ -110,7 +111,7 @@ func startServerOnce(o ServerOpts) (*Server, error) {
 			AuthWebhookCacheTTL:           "10s",
 			GatewayAddr:                   addr,
 			RPCAddr:                       addr,
-			ChannelSessionTTL:             "5s",
+			ChannelSessionTTL:             chanTTL(o),
 			ChannelSessionCleanupInterval: "1s",
 			ChannelSessionCountCacheTTL:   "10s",
 			ChannelSessionCountCacheSize:  100,
@@ -130,6 +131,13 @@ func startServerOnce(o ServerOpts) (*Server, error) {
 		return nil, err
 	}
 	return &Server{Y: y, Be: y.Backend(), Addr: y.RPCAddr(), Opts: o}, nil
+}
+
+func chanTTL(o ServerOpts) string {
+	if o.ChannelTTL != "" {
+		return o.ChannelTTL
+	}
+	return "5s"
 }
 
 // Stop shuts the server down.
